@@ -49,6 +49,7 @@ bindPort = %d
 vhostHTTPPort = %d
 auth.token = %s
 userConnTimeout = %d
+subDomainHost = "subrot.test"
 allowPorts = [{start=%d,end=%d}]
 `, e.BindPort, e.HTTPPort, tomlStr(token), raceUserConnTimeout, e.BindPort, e.BindPort))
 	if err != nil {
